@@ -18,6 +18,7 @@ from ...primitives import PrimitiveCall
 from ...bundle import BundleInstance
 from ...instantiable import Instantiable
 from ..elaboratable import Elaboratable
+from ... import _verif
 
 
 # Union of entry-types in the elaboration stack
@@ -103,6 +104,7 @@ class ElabPass:
 
         # Check if this has already been elaborated by this pass/ class
         if module in self.CLASS_LEVEL_CACHE.done:
+            _verif.emit("skip_done", elabpass=self, module=module)
             return module
 
         # Add `module` to our elab stack.
@@ -111,9 +113,11 @@ class ElabPass:
 
         # Check for circular dependencies
         if module in self.CLASS_LEVEL_CACHE.pending:
+            _verif.emit("circular", elabpass=self, module=module)
             msg = f"Invalid self referencing/ circular dependency in `{module}`"
             return self.fail(msg)
         self.CLASS_LEVEL_CACHE.pending.add(module)
+        _verif.emit("enter", elabpass=self, module=module)
 
         # Depth-first traverse instances, ensuring their targets are defined
         for inst in module.instances.values():
@@ -128,12 +132,15 @@ class ElabPass:
             self.elaborate_bundle_instance(bundle)
 
         # Run the pass-specific `elaborate_module`
+        _verif.emit("apply_begin", elabpass=self, module=module)
         result = self.elaborate_module(module)
+        _verif.emit("apply_end", elabpass=self, module=module)
 
         # Pop the hierarchy-stack and return it
         self.stack.pop()
         self.CLASS_LEVEL_CACHE.pending.remove(module)
         self.CLASS_LEVEL_CACHE.done.add(module)
+        _verif.emit("exit", elabpass=self, module=module)
         return result
 
     def elaborate_module(self, module: Module) -> Module:
